@@ -17,6 +17,12 @@ CLAIMED = {
    design_ref='DESIGN.md section 4, C06',
    note='Trusted: Coq kernel + vm_compute, the stdlib real-number axioms (sig_forall_dec, sig_not_dec, functional_extensionality_dep), the hand-written model (bit-exact correspondence on generated chains), IEEE-754 conformance of rustc on x86-64. Not proved: float vs exact evaluation (sampled at 1e-9).',
    technique='Coq proof over R by induction on transform chains + bit-exact model/code correspondence'),
+ 'C04': dict(
+   category='proof',
+   text='Theorems by induction over operation lists of any length, valid for EVERY number instance of the model (reals, Flocq floats, primitive floats): no sequence of push/close panics; a refused push leaves the loop unchanged; push on a closed loop is refused; push acceptance is characterised exactly (open, within 1e-7 of the plane, no proper crossing with an earlier non-adjacent edge, not three coincident points); a successful close gives a closed loop with >= 3 vertices. The model is run against the crate on generated histories with the complete observable state compared after every step, and an exact-rational oracle checks the geometric reading (clearly crossing / clearly off-plane candidates refused, clearly valid ones accepted, closed loops planar with no collinear vertex). Two genuine defects for retraced outlines are recorded as known findings.',
+   design_ref='DESIGN.md section 4, C04',
+   note='Trusted: Coq kernel + vm_compute, the hand-written model (bit-exact correspondence after every step of every history). The "no collinear vertex in a closed loop" clause is not a theorem (false for retraced outlines: known finding); the geometric reading of "crossing" rests on Segment3D::intersect (C19).',
+   technique='Coq proof by induction over histories (instance-generic) + step-by-step model/code correspondence'),
 }
 NOT_YET = 'check not built yet in this round (machinery under construction); see DESIGN.md section 4 for the planned Coq model and theorems'
 
